@@ -39,4 +39,30 @@ def lossy : Bytes → Bytes
                   else b0 :: b1 :: b2 :: b3 :: lossy r3
 termination_by s => s.length
 decreasing_by all_goals (simp_wf; try omega)
+
+/-- well-formed UTF-8 (Unicode 15, Table 3-7): lead byte, admissible range of the second byte, continuation bytes -/
+def valid : Bytes → Bool
+  | [] => true
+  | b0 :: rest =>
+    if b0 < 0x80 then valid rest
+    else match second b0 with
+      | none => false
+      | some (len, lo, hi) =>
+        match rest with
+        | [] => false
+        | b1 :: r1 =>
+          if !(lo ≤ b1 && b1 ≤ hi) then false
+          else if len == 2 then valid r1
+          else match r1 with
+            | [] => false
+            | b2 :: r2 =>
+              if !isCont b2 then false
+              else if len == 3 then valid r2
+              else match r2 with
+                | [] => false
+                | b3 :: r3 =>
+                  if !isCont b3 then false
+                  else valid r3
+termination_by s => s.length
+decreasing_by all_goals (simp_wf; try omega)
 end L
